@@ -50,7 +50,7 @@ fn idempotent(ch: &mut Choices, case: &mut Case) -> Result<(), String> {
     // printable and reparseable (C06 relation on the normal form)
     let norm_oh = g.oh.normalize();
     let mut units = 0;
-    roundtrip_relation(ch, &g, &norm_oh, &format!("the normal form of `{}`", g.text), 4, &mut units)?;
+    roundtrip_relation(ch, &g, &norm_oh, &n1, &format!("the normal form of `{}`", g.text), 4, &mut units)?;
     case.units = units + 3;
     Ok(())
 }
